@@ -46,6 +46,7 @@ type World struct {
 	Vols           map[string]*VolSpec // by claim name
 	VolOrder       []string
 	CSILimits      map[string]map[string]int32 // node name -> driver -> attach limit
+	VolExtra       bool
 	Catalog        []*cloudprovider.InstanceType
 	Pools          []*v1.NodePool
 	Nodes          []*NodeSpec
@@ -60,6 +61,10 @@ type GenOpts struct {
 	Volumes    bool // storage classes, PVs / PVCs with topology, CSINode attach limits; a quarter of the pods mount claims
 	Normalised bool // pods sometimes use the deprecated label keys Karpenter normalises (beta.kubernetes.io/arch, ...)
 	Reserved   bool // some instance types carry reserved-capacity offerings (capacity type "reserved", reservation id)
+	// Extra switches on the input dimensions found by the coverage audit: NodePool limits, static / not-ready NodePools,
+	// registered-but-uninitialized nodes with ephemeral and startup taints, hugepages capacity, pod overhead, creation
+	// timestamps, emptyDir / ephemeral volumes, in-tree storage classes, PVs without node affinity, hard topology constraints
+	Extra bool
 }
 
 func q(milli int64) resource.Quantity { return *resource.NewMilliQuantity(milli, resource.DecimalSI) }
@@ -99,6 +104,10 @@ func GenCatalog(r *kit.Rand, n int) []*cloudprovider.InstanceType { return GenCa
 // (capacity type "reserved", a reservation id label, ReservationCapacity 1-2); every other offering says the
 // reservation id does not exist, as the cloud provider contract demands.
 func GenCatalogOpts(r *kit.Rand, n int, reserved bool) []*cloudprovider.InstanceType {
+	return genCatalog(r, n, reserved, false)
+}
+
+func genCatalog(r *kit.Rand, n int, reserved, extra bool) []*cloudprovider.InstanceType {
 	cpus := []int64{1, 2, 4, 8, 16}
 	var out []*cloudprovider.InstanceType
 	for i := 0; i < n; i++ {
@@ -173,8 +182,12 @@ func GenCatalogOpts(r *kit.Rand, n int, reserved bool) []*cloudprovider.Instance
 		} else {
 			reqs.Add(scheduling.NewRequirement(SpecialKey, corev1.NodeSelectorOpDoesNotExist))
 		}
+		capacity := RLOf(cpu*1000, mem, pods)
+		if extra && r.Chance(1, 5) { // hugepage reservations are carved out of allocatable memory
+			capacity[corev1.ResourceName(corev1.ResourceHugePagesPrefix+"2Mi")] = *resource.NewQuantity(int64(kit.Pick(r, []int{256, 512, 4096}))<<20, resource.BinarySI)
+		}
 		out = append(out, &cloudprovider.InstanceType{Name: name, Requirements: reqs, Offerings: ofs,
-			Capacity: RLOf(cpu*1000, mem, pods),
+			Capacity: capacity,
 			Overhead: &cloudprovider.InstanceTypeOverhead{KubeReserved: corev1.ResourceList{corev1.ResourceCPU: q(100), corev1.ResourceMemory: *resource.NewQuantity(100<<20, resource.BinarySI)}}})
 	}
 	return out
@@ -194,6 +207,10 @@ var poolTaints = []corev1.Taint{
 // GenPools builds 1-3 NodePools with requirements (incl. custom keys, bounds, exclusion lists, minValues), labels,
 // taints and weights.
 func GenPools(r *kit.Rand, n int, catalog []*cloudprovider.InstanceType) []*v1.NodePool {
+	return genPools(r, n, catalog, false)
+}
+
+func genPools(r *kit.Rand, n int, catalog []*cloudprovider.InstanceType, extra bool) []*v1.NodePool {
 	var out []*v1.NodePool
 	for i := 0; i < n; i++ {
 		var reqs []v1.NodeSelectorRequirementWithMinValues
@@ -246,11 +263,35 @@ func GenPools(r *kit.Rand, n int, catalog []*cloudprovider.InstanceType) []*v1.N
 		if r.Chance(1, 3) {
 			taints = append(taints, kit.Pick(r, poolTaints))
 		}
+		var limits v1.Limits
+		var startup []corev1.Taint
+		if extra {
+			switch r.Intn(8) {
+			case 0: // cpu limit around one or two of the larger types
+				limits = v1.Limits{corev1.ResourceCPU: q(int64(kit.Pick(r, []int{2, 4, 8, 9, 16, 17})) * 1000)}
+			case 1:
+				limits = v1.Limits{"nodes": *resource.NewQuantity(int64(r.Intn(3)), resource.DecimalSI)}
+			}
+			if r.Chance(1, 5) {
+				startup = []corev1.Taint{{Key: "example.com/startup", Effect: corev1.TaintEffectNoSchedule}}
+			}
+		}
 		w := int32(r.Intn(3) * 10)
 		np := test.NodePool(v1.NodePool{ObjectMeta: metav1.ObjectMeta{Name: fmt.Sprintf("pool-%d", i), UID: types.UID(fmt.Sprintf("uid-pool-%d", i))},
 			Spec: v1.NodePoolSpec{Weight: &w, Template: v1.NodeClaimTemplate{
 				ObjectMeta: v1.ObjectMeta{Labels: labels},
-				Spec:       v1.NodeClaimTemplateSpec{Requirements: reqs, Taints: taints}}}})
+				Spec:       v1.NodeClaimTemplateSpec{Requirements: reqs, Taints: taints, StartupTaints: startup}}, Limits: limits}})
+		out = append(out, np)
+	}
+	if extra && r.Chance(1, 4) { // pools the provisioner must ignore: static (replicas) or not ready
+		np := test.NodePool(v1.NodePool{ObjectMeta: metav1.ObjectMeta{Name: "pool-ignored", UID: "uid-pool-ignored"}})
+		if r.Bool() {
+			np.Spec.Replicas = new(int64)
+		} else {
+			np.StatusConditions().SetFalse(v1.ConditionTypeNodeClassReady, "NotReady", "not ready")
+		}
+		hundred := int32(100)
+		np.Spec.Weight = &hundred
 		out = append(out, np)
 	}
 	return out
@@ -483,7 +524,9 @@ func boundPod(name, node string, cpu, mem int64, ports []corev1.ContainerPort) *
 }
 
 // GenNodes builds 0-4 pre-existing nodes of the four kinds, with bound pods and bound daemon pods.
-func GenNodes(r *kit.Rand, n int, w *World) []*NodeSpec {
+func GenNodes(r *kit.Rand, n int, w *World) []*NodeSpec { return genNodes(r, n, w, false) }
+
+func genNodes(r *kit.Rand, n int, w *World, extra bool) []*NodeSpec {
 	var out []*NodeSpec
 	for i := 0; i < n; i++ {
 		it := kit.Pick(r, w.Catalog)
@@ -493,6 +536,9 @@ func GenNodes(r *kit.Rand, n int, w *World) []*NodeSpec {
 		}
 		of := kit.Pick(r, avail)
 		kind := kit.Pick(r, []string{"ready", "ready", "inflight", "deleting", "unmanaged"})
+		if extra && r.Chance(1, 4) {
+			kind = "registering" // Node exists and is registered, not yet initialized: ephemeral and startup taints are ignored
+		}
 		name := fmt.Sprintf("node-%d", i)
 		labels := map[string]string{corev1.LabelInstanceTypeStable: it.Name, corev1.LabelArchStable: it.Requirements.Get(corev1.LabelArchStable).Any(), corev1.LabelOSStable: "linux",
 			corev1.LabelTopologyZone: of.Zone(), v1.CapacityTypeLabelKey: of.CapacityType(), corev1.LabelHostname: name, IntegerKey: it.Requirements.Get(IntegerKey).Any()}
@@ -521,12 +567,20 @@ func GenNodes(r *kit.Rand, n int, w *World) []*NodeSpec {
 			for k, v := range labels {
 				nl[k] = v
 			}
-			if kind != "unmanaged" {
+			nodeTaints := taints
+			if kind == "registering" {
+				nl[v1.NodeRegisteredLabelKey] = "true"
+				ns.NodeClaim.StatusConditions().SetTrue(v1.ConditionTypeRegistered)
+				ns.NodeClaim.Spec.StartupTaints = []corev1.Taint{{Key: "example.com/startup", Effect: corev1.TaintEffectNoSchedule}}
+				nodeTaints = append(append([]corev1.Taint{}, taints...), corev1.Taint{Key: corev1.TaintNodeNotReady, Effect: corev1.TaintEffectNoSchedule},
+					corev1.Taint{Key: "example.com/startup", Effect: corev1.TaintEffectNoSchedule}, corev1.Taint{Key: "readiness.k8s.io/rule-1", Effect: corev1.TaintEffectNoSchedule})
+			} else if kind != "unmanaged" {
 				nl[v1.NodeRegisteredLabelKey] = "true"
 				nl[v1.NodeInitializedLabelKey] = "true"
 				ns.NodeClaim.StatusConditions().SetTrue(v1.ConditionTypeRegistered)
 				ns.NodeClaim.StatusConditions().SetTrue(v1.ConditionTypeInitialized)
 			}
+			taints = nodeTaints
 			ns.Node = test.Node(test.NodeOptions{ObjectMeta: metav1.ObjectMeta{Name: name, UID: types.UID("uid-" + name), Labels: nl}, ProviderID: "fake://" + name, Taints: taints, Allocatable: alloc, Capacity: it.Capacity})
 			nb := r.Intn(3)
 			for j := 0; j < nb; j++ {
@@ -552,16 +606,19 @@ func Gen(r *kit.Rand, o GenOpts) *World {
 	if o.Thorough {
 		nIT = r.Range(3, 12)
 	}
-	w.Catalog = GenCatalogOpts(r, nIT, o.Reserved)
-	w.Pools = GenPools(r, r.Range(1, 3), w.Catalog)
-	w.Nodes = GenNodes(r, r.Intn(5), w)
+	w.Catalog = genCatalog(r, nIT, o.Reserved, o.Extra)
+	w.Pools = genPools(r, r.Range(1, 3), w.Catalog, o.Extra)
+	w.Nodes = genNodes(r, r.Intn(5), w, o.Extra)
 	w.DaemonSets = GenDaemonSets(r, r.Intn(4), w)
 	if o.Volumes {
-		GenVolumes(r, w, r.Range(2, 5))
+		GenVolumesOpts(r, w, r.Range(2, 5), o.Extra)
 		for _, n := range w.Nodes {
-			for _, b := range n.Bound {
+			for i, b := range n.Bound {
 				if r.Chance(1, 3) {
 					AttachVolumes(r, w, b)
+				}
+				if o.Extra && i == 0 && r.Chance(1, 4) { // a claim that was deleted by hand: ignored for limits and topology
+					b.Spec.Volumes = append(b.Spec.Volumes, corev1.Volume{Name: "gone", VolumeSource: corev1.VolumeSource{PersistentVolumeClaim: &corev1.PersistentVolumeClaimVolumeSource{ClaimName: "pvc-gone"}}})
 				}
 			}
 		}
@@ -574,6 +631,9 @@ func Gen(r *kit.Rand, o GenOpts) *World {
 		p := GenPod(r, fmt.Sprintf("p%d", i), w, o)
 		if o.Normalised && r.Chance(1, 3) {
 			UseDeprecatedKeys(p)
+		}
+		if o.Extra {
+			extraPodDims(r, p, o)
 		}
 		if o.Volumes && r.Chance(1, 3) {
 			AttachVolumes(r, w, p)
@@ -616,5 +676,31 @@ func UseDeprecatedKeys(p *corev1.Pod) {
 		for i := range na.PreferredDuringSchedulingIgnoredDuringExecution {
 			fix(na.PreferredDuringSchedulingIgnoredDuringExecution[i].Preference.MatchExpressions)
 		}
+	}
+}
+
+// extraPodDims: pod overhead, distinct creation timestamps (queue tie-break), hard topology constraints.
+func extraPodDims(r *kit.Rand, p *corev1.Pod, o GenOpts) {
+	if r.Chance(1, 6) {
+		p.Spec.Overhead = RLOf(int64(kit.Pick(r, []int{50, 250})), 16, -1)
+	}
+	if r.Chance(1, 2) {
+		p.CreationTimestamp = metav1.Unix(1_700_000_000+int64(r.Intn(3)), 0)
+	}
+	if o.NoTopology || !r.Chance(1, 8) {
+		return
+	}
+	sel := &metav1.LabelSelector{MatchLabels: map[string]string{"app": p.Labels["app"]}}
+	if r.Bool() {
+		p.Spec.TopologySpreadConstraints = append(p.Spec.TopologySpreadConstraints, corev1.TopologySpreadConstraint{MaxSkew: 1,
+			TopologyKey: kit.Pick(r, []string{corev1.LabelTopologyZone, corev1.LabelHostname}), WhenUnsatisfiable: corev1.DoNotSchedule, LabelSelector: sel})
+	} else {
+		if p.Spec.Affinity == nil {
+			p.Spec.Affinity = &corev1.Affinity{}
+		}
+		if p.Spec.Affinity.PodAntiAffinity == nil {
+			p.Spec.Affinity.PodAntiAffinity = &corev1.PodAntiAffinity{}
+		}
+		p.Spec.Affinity.PodAntiAffinity.RequiredDuringSchedulingIgnoredDuringExecution = []corev1.PodAffinityTerm{{TopologyKey: corev1.LabelHostname, LabelSelector: sel}}
 	}
 }
